@@ -13,9 +13,10 @@ Z3_STATS = {"checks": 0, "seconds": 0.0, "sat": 0, "unsat": 0, "unknown": 0}
 ENGINE_PATCHES = [
     "crosshair.libimpl.relib._Match.groupdict rebuilt on group() (0.0.110 returns index pairs and drops unmatched groups)",
     "str.__mod__ registration: the two '%r' % dict.keys() logger.debug format strings of curtsies.window are returned unformatted (logging is not the subject)",
-    "copyreg.pickle(FrozenAttributes) so CrossHair's own deepcopy bookkeeping can copy run attributes",
+    "copyreg.pickle(FrozenAttributes / FmtStr / Chunk) so CrossHair's own deepcopy bookkeeping can copy them (plain copy.copy of a FmtStr raises RecursionError / 'Cannot change value.')",
     "SymbolicInt.__mul__/__rmul__ with ' ' returns a SegStr of spaces (only in SegStr harnesses)",
     "z3.Solver.check wrapped to count queries and solver seconds",
+    "search heuristics off: premature realisation of arguments (redundant subset of the symbolic path) and short-circuiting of contract-carrying callees (real bodies always run)",
 ]
 
 
@@ -59,6 +60,12 @@ def _fix_logging_format():
     from curtsies.formatstring import FrozenAttributes
 
     copyreg.pickle(FrozenAttributes, lambda fa: (FrozenAttributes, (dict(fa),)))
+    # FmtStr.__getattr__ recurses forever on an instance whose __init__ has not run, which is what copy/pickle
+    # create (copy.copy(fmtstr('a')) raises RecursionError on plain CPython too); CrossHair deep-copies values
+    # handed to hash()/containers, so FmtStr and Chunk get explicit reducers (curtsies itself never copies them)
+    from curtsies.formatstring import FmtStr, Chunk
+    copyreg.pickle(FmtStr, lambda f: (FmtStr, tuple(f.chunks)))
+    copyreg.pickle(Chunk, lambda c: (Chunk, (c._s, dict(c._atts))))
 
     def pf(self, other):
         with NoTracing():
@@ -72,6 +79,24 @@ def _fix_logging_format():
     _PATCH_REGISTRATIONS[str.__mod__] = pf
 
 
+def _tune_search():
+    """two CrossHair search heuristics that only add redundant paths to these harnesses are switched off:
+    * 'premature realisation' of int/str arguments (a random fork that replaces a symbolic argument by one
+      concrete value - a strict subset of the symbolic path that is explored anyway);
+    * short-circuiting of calls to functions that carry contracts (the callee is replaced by an arbitrary
+      proxy value and reconciled later): every call executes its real body instead."""
+    from crosshair import statespace, core
+    orig_fork = statespace.StateSpace.fork_parallel
+
+    def fork_parallel(self, false_probability, desc=""):
+        if desc.startswith("premature realize"):
+            return False
+        return orig_fork(self, false_probability, desc)
+
+    statespace.StateSpace.fork_parallel = fork_parallel
+    core.ShortCircuitingContext.make_interceptor = lambda self, original: original
+
+
 def install():
     import sys
     sys.setrecursionlimit(20000)
@@ -79,3 +104,4 @@ def install():
     import crosshair.core_and_libs  # noqa: F401  (registers the library patches)
     _fix_groupdict()
     _fix_logging_format()
+    _tune_search()
